@@ -54,4 +54,6 @@ def warm_quick():
   runs.append(('LinenScope', 'LinenScope_mc.cfg', dict(workers=16, timeout=3000)))
   runs.append(('LinenScope', 'LinenScope_mc_nosep.cfg', dict(workers=16)))
   runs.append(('LinenScope', 'LinenScope_map.cfg', dict(workers=1, timeout=3000)))
+  runs.append(('NnxGraph', 'NnxGraph_mc.cfg', dict(workers=16, timeout=3000)))
+  runs.append(('NnxGraph', 'NnxGraph_small.cfg', dict(workers=1, timeout=3000)))
   return runs
